@@ -134,7 +134,7 @@ func c02DepthExhaustive() int { return len(c02Excursions) * len(c02ExcPositions)
 func c02DepthSchedule(r *fw.RNG, tier string) []int {
 	kmax, lim := 11, 800
 	if tier == "thorough" {
-		kmax, lim = 13, 3000
+		kmax, lim = 13, 2500
 	}
 	fpl := r.Range(1, 4)
 	var ds []int
@@ -276,7 +276,7 @@ func c02DepthCaseFor(w *fw.W, idx, j int, tier string) *c02Dep {
 // c02DepthTree builds a tree as child tables.  "Deep" always means deep along a NON-tail
 // slot (those levels are real frames); the tail slot carries the turns of the loops.
 func c02DepthTree(r *fw.RNG, shape string, arity, tailSlot int, tier string) [][]int {
-	lim := 1600
+	lim := 1300
 	if tier == "thorough" {
 		lim = 9000
 	}
@@ -693,7 +693,8 @@ func c02RunDepth(w *fw.W, c *c02Dep) {
 		want = fmt.Sprint(c02Ack(c.m, c.n))
 	}
 	if on.t.IsErr || on.t.Value != want {
-		if c02LimitErr(on.t) && c.family != "loop" {
+		if c02LimitErr(on.t) && !twin {
+			// neither run fits the stack limit: outside the property
 			w.Count("depth_history_on_run_hit_limit", 1)
 			return
 		}
